@@ -1,8 +1,11 @@
 """Configuration of ./check for C04 (see tools/props.py)."""
 ENTRY = {'coq_dir': 'C04',
  'harness': 'c04',
- 'cases': {'quick': 600, 'thorough': 9000},
- 'consts': ['BACKPRESSURE_BOUNDARY', 'SUBSTREAM_READ_BUFFER_INIT', 'SUBSTREAM_READ_BUFFER_INIT_OTHER', 'SUBSTREAM_SIZE_VEC_LEN'],
+ 'cases': {'quick': 700, 'thorough': 9000},
+ 'quick_streams': [('extra', '{V}/tools/c04_extra_streams.sh {seed} 250')],
+ 'thorough_streams': [('extra', '{V}/tools/c04_extra_streams.sh {seed} 4000')],
+ 'consts': ['BACKPRESSURE_BOUNDARY', 'SUBSTREAM_READ_BUFFER_INIT', 'SUBSTREAM_READ_BUFFER_INIT_OTHER', 'SUBSTREAM_SIZE_VEC_LEN',
+            'YAMUX_DEFAULT_CREDIT', 'WEBRTC_MAX_INFLIGHT_MESSAGES', 'C19_WEBRTC_MAX_FRAME_SIZE'],
  'nontrivial_min_trace': 12,
  'rule': 'seeded random cases. (A) the real substream::Substream over a scripted in-memory carrier (SubstreamType::Verif hook; one script '
          'event per poll_read/poll_write/poll_flush/poll_shutdown call): codec in {Identity n: n in 0,1,5,10,300,1023,1024,1025,2048,4000,'
